@@ -68,7 +68,11 @@ def listing(chk: Check, site: driver.Site, view: str, sel: bytes):
 
 def compare_dir(chk: Check, site: driver.Site, sel: bytes, ctx: str, abstract_entries: str) -> None:
     per_view = {}
-    for view in VIEWS:
+    views = VIEWS
+    if sel == b"/wap" or sel.startswith(b"/wap/"):
+        # documented: over HTTP(S) the waptop path is the WAP view of the site, not this directory
+        views = [v for v in VIEWS if v not in ("http", "https")]
+    for view in views:
         ents, resp, v = listing(chk, site, view, sel)
         if ents is None:
             chk.witness("C06/listing-failed:%s" % reqs.VIEWS[view][0],
@@ -87,7 +91,7 @@ def compare_dir(chk: Check, site: driver.Site, sel: bytes, ctx: str, abstract_en
                 return
             chk.count("trailing_slash_pairs")
     base_view = "gopher"
-    for view in VIEWS:
+    for view in views:
         if view == base_view:
             continue
         gl = view in GEMLIKE
@@ -121,6 +125,8 @@ def mime_views(chk: Check, site: driver.Site, o: sites.Obj, ctx: str) -> None:
     """One selector -> the same object and MIME type in all protocols."""
     got = {}
     for view in ("http", "https", "gemini", "spartan", "gopherp!"):
+        if view in ("http", "https") and (o.selector == b"/wap" or o.selector.startswith(b"/wap/")):
+            continue
         req, tls = reqs.render(view, o.selector)
         resp = site.request(req, tls=tls)
         v = validate.validate(resp, req)
